@@ -22,7 +22,7 @@ class Shadow:
 
 
 def gen_ops(r, nops, focus):
-    """focus: 'alloc' (C12), 'ckpt' (C05), 'fossil' (C13)"""
+    """focus: 'alloc' (C12), 'ckpt' (C05), 'fossil' (C13), 'big' (many arenas per LP: C11, C12)"""
     sh = Shadow()
     ops = []
     tagc = [1]
@@ -37,9 +37,13 @@ def gen_ops(r, nops, focus):
         wck = 18 if focus != "alloc" else 6
         wrs = 12 if focus != "alloc" else 4
         wfo = 8 if focus == "fossil" else (2 if focus == "ckpt" else 1)
+        if focus == "big" and k >= 30 and r.chance(1, 2):
+            k = 0           # a growing population of blocks above half an arena: one arena each, so the per-LP arena table itself grows (9th, 17th, 33rd arena)
         if k < 30 or not sh.live:
             s = sh.fresh()
             size = r.choice(SIZES) if r.chance(4, 5) else r.range(1, 65536)
+            if focus == "big" and r.chance(3, 4):
+                size = r.choice([32769, 40000, 60000, 65535, 65536])
             if r.chance(1, 25):
                 size = r.choice(BAD_SIZES)
             ops.append("M %d %s" % (s, hex(size) if size >= (1 << 62) else str(size)))
@@ -197,7 +201,7 @@ def campaign(c, focus, pid):
     nseq = 30 if c.tier == "quick" else 500
     tot, corr_bad, dist, nontriv = 0, None, {}, 0
     for k in range(nseq):
-        ops = gen_ops(r, r.choice([50, 120, 400]), focus)
+        ops = gen_ops(r, r.choice([50, 120, 400]), focus if k % 5 else "big")      # every fifth sequence grows the arena table past 8, 16, 32 entries
         inp = "\n".join(o.split("#")[0].strip() for o in ops) + "\n"
         rc, so, se = V.run([exe], inp=inp, timeout=120)
         out = [l for l in so.split("\n") if l]
